@@ -114,6 +114,7 @@ package fingerprint
 // genOK(t,k): the k-th generates pattern of t resolved to at least one existing file in this check.
 //@ ghost table genOK(t *ast.Task, k int) bool local
 //@ ghost var compared bool scratch
+//@ ghost var checkTime time.Time scratch
 //@ ghost var refreshed bool scratch
 
 //@ func (*ChecksumChecker).IsUpToDate
@@ -129,6 +130,10 @@ package fingerprint
 //@   init refreshed := false
 //@   site anyFileNewerThan#1 ghost compared := result.1 == nil
 //@   site os.Chtimes#1 ghost refreshed := true
+// the marker is re-dated to the time THIS check was made (taken before the comparison), never to a time derived
+// from the files it compares: an edit made after the run is always newer than the marker
+//@   site time.Now#1 ghost checkTime := result
+//@   site os.Chtimes#1 requires arg0 == timestampFile && arg1 == checkTime && arg2 == checkTime                      [C05,C04]
 //@   ensures result.1 == nil && compared && !checker.dry ==> refreshed                                               [C05]
 // a missing generates file makes the task run again with method timestamp too: every (non-negated) generates
 // entry must resolve to at least one existing file before the answer can be "up to date"
